@@ -40,7 +40,7 @@ ASSUMPTIONS = [
 
 def plan(tier):
     if tier == "quick":
-        return {"runs": 1200, "budget_s": 45, "run_timeout_s": 180, "det_pairs": 3}
+        return {"runs": 2400, "budget_s": 45, "run_timeout_s": 180, "det_pairs": 3}
     return {"runs": 200000, "budget_s": 780, "run_timeout_s": 240, "det_pairs": 3}
 
 
